@@ -38,14 +38,71 @@ pub fn swarm_weights(rng: &mut Rng, base: &[u32; 19]) -> [u32; 19] {
     w
 }
 
+/// Never generated for any property: removal / overwrite / move of the root itself and
+/// copy_dir / move_dir into the source's own subtree (documented non-termination).
+pub fn excluded_everywhere(op: &Op) -> bool {
+    let root = |p: &P| canon(&p.s).map(|c| c.is_empty()).unwrap_or(false);
+    match op {
+        Op::RemoveFile(p) | Op::RemoveDir(p) | Op::RemoveDirAll(p) | Op::Write { p, .. } => root(p),
+        Op::MoveFile(s, d) | Op::MoveDir(s, d) | Op::CopyDir(s, d) | Op::CopyFile(s, d) => {
+            if root(s) && !matches!(op, Op::CopyFile(..)) {
+                return true;
+            }
+            if matches!(op, Op::CopyDir(..) | Op::MoveDir(..)) && s.fs == d.fs {
+                if let (Ok(cs), Ok(cd)) = (canon(&s.s), canon(&d.s)) {
+                    return is_under(&cd, &cs) || cs.is_empty();
+                }
+            }
+            false
+        }
+        _ => false,
+    }
+}
+
 pub fn gen_history(g: &mut Gen, world: &mut World, n: usize, weights: &[u32; 19]) -> Vec<Op> {
     let mut ops = vec![];
     for _ in 0..n {
-        let op = g.gen_op(world, weights);
-        world.apply(&op);
-        ops.push(op);
+        let mut chosen = None;
+        for _ in 0..12 {
+            let op = g.gen_op(world, weights);
+            if excluded_everywhere(&op) {
+                continue;
+            }
+            if g.domain == Domain::Contract {
+                // only combinations the properties specify
+                let mut probe = world.clone();
+                if matches!(probe.apply(&op), Want::Unspec) {
+                    continue;
+                }
+                if g.avoid_known && g.rng.pct(90) && known_trigger(&op, world) {
+                    continue;
+                }
+            }
+            chosen = Some(op);
+            break;
+        }
+        if let Some(op) = chosen {
+            world.apply(&op);
+            ops.push(op);
+        }
     }
     ops
+}
+
+/// Preconditions of listed known findings (DESIGN 3.10): avoided in 90 % of the draws so a known
+/// finding does not shadow the rest of a run, sought in the rest so it is re-confirmed.
+pub fn known_trigger(op: &Op, w: &World) -> bool {
+    match op {
+        // OverlayFS::remove_file on an empty directory (pinned by an existing test)
+        Op::RemoveFile(p) => match canon(&p.s) {
+            Ok(c) => {
+                let m = &w.m[p.fs as usize];
+                m.is_dir(&c) && m.children(&c).is_empty()
+            }
+            Err(_) => false,
+        },
+        _ => false,
+    }
 }
 
 fn base_cfg(prop: &str, mode: &str, seed: u64, g: &mut Gen, specs: Vec<Spec>, ops: Vec<Op>) -> RunCfg {
@@ -126,6 +183,7 @@ pub fn gen_cfg(prop: &str, seed: u64) -> RunCfg {
             let pp = phys_pct_for(&mut g.rng);
             let spec = any_stack(&mut g, pp);
             let mut world = World { m: vec![spec.view()] };
+            g.avoid_known = spec.has_ovl();
             let n = g.rng.range(4, 40);
             let w = swarm_weights(&mut g.rng, &W_DEFAULT);
             let ops = gen_history(&mut g, &mut world, n, &w);
@@ -135,6 +193,7 @@ pub fn gen_cfg(prop: &str, seed: u64) -> RunCfg {
             let pp = phys_pct_for(&mut g.rng);
             let spec = overlay_stack(&mut g, pp, 1, 4);
             let mut world = World { m: vec![spec.view()] };
+            g.avoid_known = spec.has_ovl();
             let n = g.rng.range(4, 30);
             // biased to the union/contract interactions: create over lower-only, remove, append
             let base: [u32; 19] = [2, 2, 1, 1, 4, 4, 1, 2, 14, 4, 9, 12, 4, 10, 10, 3, 3, 2, 2];
@@ -146,6 +205,7 @@ pub fn gen_cfg(prop: &str, seed: u64) -> RunCfg {
             let pp = phys_pct_for(&mut g.rng);
             let spec = overlay_stack(&mut g, pp, 2, 4);
             let mut world = World { m: vec![spec.view()] };
+            g.avoid_known = spec.has_ovl();
             let cycles = g.rng.range(1, 4);
             let mut ops = vec![];
             let removal: [u32; 19] = [1, 1, 0, 0, 2, 1, 0, 1, 0, 0, 14, 10, 12, 0, 0, 0, 2, 0, 2];
@@ -166,6 +226,7 @@ pub fn gen_cfg(prop: &str, seed: u64) -> RunCfg {
             let spec = if g.rng.pct(50) { overlay_stack(&mut g, pp, 1, 3) } else { any_stack(&mut g, pp) };
             g.domain = Domain::Unrestricted;
             let mut world = World { m: vec![spec.view()] };
+            g.avoid_known = spec.has_ovl();
             let n = g.rng.range(4, 30);
             let w = swarm_weights(&mut g.rng, &W_DEFAULT);
             let ops = gen_history(&mut g, &mut world, n, &w);
@@ -191,6 +252,7 @@ pub fn gen_cfg(prop: &str, seed: u64) -> RunCfg {
             }
             g.nfs = specs.len();
             let mut world = World { m: specs.iter().map(|s| s.view()).collect() };
+            g.avoid_known = specs.iter().any(|s| s.has_ovl());
             // grow source trees first, then transfer-heavy mix
             let grow: [u32; 19] = [0, 0, 0, 0, 0, 0, 0, 0, 10, 8, 0, 0, 0, 12, 2, 0, 0, 0, 0];
             let xfer: [u32; 19] = [1, 1, 0, 0, 2, 2, 1, 2, 3, 6, 2, 2, 8, 3, 2, 10, 10, 12, 12];
